@@ -2,31 +2,49 @@
   Model/Srpc — srpc.c `srpc_iterate` / `srpc_async__call` over Model/Proto, together with
   the devconn I/O shim (supla_esp_devconn.c: `recv_cb`, `data_read`, `data_write`,
   `data_write_append_buffer`, `supla_esp_devconn_iterate` with `registered = 1`).
+
+  The state is split into the IN half (staging buffer + proto in-buffer) and the OUT half
+  (out queue, proto out-buffer, send shim): `srpc_iterate` runs the IN half, then the OUT half,
+  and the two share nothing but the scratch packet `srpc->sdp` (a parameter here).
 -/
 import SuplaVerif.Model.Proto
 
 namespace SuplaVerif
 open Bytes
 
-/-- observable events, one canonical line each in the correspondence protocol -/
-inductive Obs
-  | deliver (f : Frame)
+/-- observations of the OUT half (they never carry a delivered frame) -/
+inductive OObs
   | sent (code : Int) (bytes : Bytes)
   | log (cls : String)
   | callret (rr : Nat)
+  deriving Repr, DecidableEq
+
+/-- observable events, one canonical line each in the correspondence protocol -/
+inductive Obs
+  | deliver (f : Frame)
+  | out (o : OObs)
+  | log (cls : String)
   | restart
   deriving Repr, DecidableEq
 
-structure Io where
+structure IoIn where
   staging : Bytes := []          -- devconn->recvbuff[0..recvbuff_size)
   inb     : AccBuf := {}         -- proto in buffer
+  deriving Repr
+
+structure IoOut where
   outQ    : List Frame := []     -- srpc out_queue (oldest first)
   outb    : AccBuf := {}         -- proto out buffer
   shim    : Bytes := []          -- devconn->esp_send_buffer[0..len)
   nextRr  : Nat := 0
   ver     : Nat := 0             -- proto version stamped on outgoing packets
   esp     : List Int := []       -- scripted results of espconn_sent, then 0 forever
-  dead    : Bool := false        -- after supla_system_restart
+  deriving Repr
+
+structure Io where
+  i    : IoIn := {}
+  o    : IoOut := {}
+  dead : Bool := false           -- after supla_system_restart
   deriving Repr
 
 inductive Ev
@@ -36,40 +54,40 @@ inductive Ev
   | esp (codes : List Int)       -- append to the espconn_sent result script
   deriving Repr
 
-namespace Io
-
-abbrev ESPCONN_INPROGRESS : Int := Io_INPROGRESS
-abbrev ESPCONN_MAXNUM : Int := Io_MAXNUM
+namespace IoOut
 
 /-- espconn_sent: consume one scripted result -/
-def espSent (s : Io) (bytes : Bytes) : Int × Io × List Obs :=
+def espSent (s : IoOut) (bytes : Bytes) : Int × IoOut × List OObs :=
   match s.esp with
   | [] => (0, s, [.sent 0 bytes])
   | c :: cs => (c, { s with esp := cs }, [.sent c bytes])
 
 /-- supla_esp_data_write_append_buffer -/
-def shimAppend (P : ProtoParams) (s : Io) (d : Bytes) : Io × List Obs :=
+def shimAppend (P : ProtoParams) (s : IoOut) (d : Bytes) : IoOut × List OObs :=
   if d.length > 0 then
     if s.shim.length + d.length > P.sendBuf then (s, [.log "SENDOVF"])
     else ({ s with shim := s.shim ++ d }, [])
   else (s, [])
 
 /-- supla_esp_data_write -/
-def dataWrite (P : ProtoParams) (s : Io) (d : Bytes) : Io × List Obs :=
-  let (s, o1) :=
+def dataWrite (P : ProtoParams) (s : IoOut) (d : Bytes) : IoOut × List OObs :=
+  let r1 : IoOut × List OObs :=
     if s.shim.length > 0 then
-      let (r, s', o) := s.espSent s.shim
-      (if r = 0 then { s' with shim := [] } else s', o)
+      match s.espSent s.shim with
+      | (r, s', o) => (if r = 0 then { s' with shim := [] } else s', o)
     else (s, [])
+  let s := r1.1
+  let o1 := r1.2
   if s.shim.length > 0 then
-    let (s, o2) := shimAppend P s d
-    (s, o1 ++ o2)
+    match shimAppend P s d with
+    | (s, o2) => (s, o1 ++ o2)
   else if d.length > 0 then
-    let (r, s, o2) := s.espSent d
-    if r = ESPCONN_INPROGRESS ∨ r = ESPCONN_MAXNUM then
-      let (s, o3) := shimAppend P s d
-      (s, o1 ++ o2 ++ o3)
-    else (s, o1 ++ o2)
+    match s.espSent d with
+    | (r, s, o2) =>
+      if r = Io_INPROGRESS ∨ r = Io_MAXNUM then
+        match shimAppend P s d with
+        | (s, o3) => (s, o1 ++ o2 ++ o3)
+      else (s, o1 ++ o2)
   else (s, o1)
 
 /-- sproto_out_buffer_append on the out buffer -/
@@ -90,60 +108,31 @@ def popOut (P : ProtoParams) (b : AccBuf) (n : Nat) : Bytes × AccBuf :=
                  then (if rest.length < P.bufMin then P.bufMin else rest.length) else b.size
     (b.data.take n', { b with data := rest, size := size' })
 
-/-- srpc_iterate; returns FALSE (→ `none`) or TRUE -/
-def srpcIterate (P : ProtoParams) (scratch : Bytes) (s : Io) : Bool × Io × List Obs :=
-  -- IN: data_read(SRPC_BUFFER_SIZE)
-  let chunk := s.staging.take P.chunk
-  let s := { s with staging := s.staging.drop P.chunk }
-  let (r, inb) := if chunk.length > 0 then s.inb.append P chunk else (PRes.ok, s.inb)
-  if r ≠ .ok then (false, s, [.log "INAPPERR"])
+/-- OUT half of srpc_iterate: one queued packet to the out buffer, one chunk to data_write.
+    `false` = srpc_iterate returns FALSE. -/
+def outHalf (P : ProtoParams) (s : IoOut) : Bool × IoOut × List OObs :=
+  let r : Bool × IoOut × List OObs :=
+    match s.outQ with
+    | [] => (true, s, [])
+    | f :: q =>
+      match outAppend P s.outb f with
+      | (ar, ob) =>
+        let s := { s with outQ := q, outb := ob }
+        if ar ≠ .ok ∧ ar ≠ .false_ then (false, s, [OObs.log "OUTAPPERR"]) else (true, s, [])
+  if !r.1 then r
   else
-    let s := { s with inb := inb }
-    let (pr, inb, sdp) := popInSdp P s.inb scratch
-    let s := { s with inb := inb }
-    let inRes : Option (List Obs) :=
-      match pr with
-      | .ok => some [.deliver (decodeSdp P sdp)]
-      | .false_ => some []
-      | .versionError => none
-      | _ => none
-    match inRes with
-    | none => (false, s, if pr = .versionError then [] else [.log "POPERR"])
-    | some o1 =>
-      -- OUT: one queued packet to the out buffer
-      let (ok, s, o2) :=
-        match s.outQ with
-        | [] => (true, s, [])
-        | f :: q =>
-          let (ar, ob) := outAppend P s.outb f
-          let s := { s with outQ := q, outb := ob }
-          if ar ≠ .ok ∧ ar ≠ .false_ then (false, s, [Obs.log "OUTAPPERR"]) else (true, s, [])
-      if !ok then (false, s, o1 ++ o2)
-      else
-        let (d, ob) := popOut P s.outb P.chunk
-        let s := { s with outb := ob }
-        if d.length ≠ 0 then
-          let (s, o3) := dataWrite P s d
-          (true, s, o1 ++ o2 ++ o3)
-        else (true, s, o1 ++ o2)
-
-/-- supla_esp_devconn_iterate with srpc present and registered = 1 -/
-def devIterate (P : ProtoParams) (scratch : Bytes) (s : Io) : Io × List Obs :=
-  let (s, o0) := dataWrite P s []
-  let (ok, s, o1) := srpcIterate P scratch s
-  if ok then (s, o0 ++ o1)
-  else ({ s with dead := true }, o0 ++ o1 ++ [.log "ITERFAIL", .restart])
-
-/-- supla_esp_devconn_recv_cb -/
-def recvCb (P : ProtoParams) (scratch : Bytes) (s : Io) (d : Bytes) : Io × List Obs :=
-  if d.length = 0 then (s, [])
-  else if d.length ≤ P.stage - s.staging.length then
-    devIterate P scratch { s with staging := s.staging ++ d }
-  else (s, [.log "RECVOVF"])
+    let s := r.2.1
+    match popOut P s.outb P.chunk with
+    | (d, ob) =>
+      let s := { s with outb := ob }
+      if d.length ≠ 0 then
+        match dataWrite P s d with
+        | (s, o3) => (true, s, r.2.2 ++ o3)
+      else (true, s, r.2.2)
 
 /-- sproto_sdp_init + sproto_set_data + srpc_out_queue_push -/
-def asyncCall (P : ProtoParams) (allowed : Nat → Bool) (s : Io) (callId : Nat) (payload : Bytes) :
-    Io × List Obs :=
+def asyncCall (P : ProtoParams) (allowed : Nat → Bool) (s : IoOut) (callId : Nat) (payload : Bytes) :
+    IoOut × List OObs :=
   if !allowed callId then (s, [.callret 0]) else
   let rr0 := (s.nextRr + 1) % U32
   let rr := if rr0 = 0 then 1 else rr0
@@ -154,6 +143,55 @@ def asyncCall (P : ProtoParams) (allowed : Nat → Bool) (s : Io) (callId : Nat)
     ({ s with outQ := s.outQ ++ [{ ver := s.ver, rrId := rr, callId := callId, payload := payload }] },
      [.callret rr])
 
+end IoOut
+
+namespace IoIn
+
+/-- IN half of srpc_iterate: data_read(SRPC_BUFFER_SIZE), append, one pop.
+    `false` = srpc_iterate returns FALSE. -/
+def inHalf (P : ProtoParams) (scratch : Bytes) (s : IoIn) : Bool × IoIn × List Obs :=
+  let chunk := s.staging.take P.chunk
+  let staging := s.staging.drop P.chunk
+  let ra : PRes × AccBuf := if chunk.length > 0 then s.inb.append P chunk else (PRes.ok, s.inb)
+  if ra.1 ≠ .ok then (false, { staging := staging, inb := ra.2 }, [.log "INAPPERR"])
+  else
+    match popInSdp P ra.2 scratch with
+    | (.ok, inb, sdp) => (true, { staging := staging, inb := inb }, [.deliver (decodeSdp P sdp)])
+    | (.false_, inb, _) => (true, { staging := staging, inb := inb }, [])
+    | (.versionError, inb, _) => (false, { staging := staging, inb := inb }, [])
+    | (_, inb, _) => (false, { staging := staging, inb := inb }, [.log "POPERR"])
+
+end IoIn
+
+namespace Io
+
+/-- srpc_iterate -/
+def srpcIterate (P : ProtoParams) (scratch : Bytes) (s : Io) : Bool × Io × List Obs :=
+  match s.i.inHalf P scratch with
+  | (false, i, o1) => (false, { s with i := i }, o1)
+  | (true, i, o1) =>
+    match s.o.outHalf P with
+    | (ok, o, o2) => (ok, { s with i := i, o := o }, o1 ++ o2.map Obs.out)
+
+/-- supla_esp_devconn_iterate with srpc present and registered = 1 -/
+def devIterate (P : ProtoParams) (scratch : Bytes) (s : Io) : Io × List Obs :=
+  match s.o.dataWrite P [] with
+  | (o, o0) =>
+    match srpcIterate P scratch { s with o := o } with
+    | (true, s, o1) => (s, o0.map Obs.out ++ o1)
+    | (false, s, o1) => ({ s with dead := true }, o0.map Obs.out ++ o1 ++ [.log "ITERFAIL", .restart])
+
+/-- does supla_esp_devconn_recv_cb accept this segment? -/
+def accepts (P : ProtoParams) (s : Io) (d : Bytes) : Bool :=
+  !s.dead && decide (d.length ≤ P.stage - s.i.staging.length)
+
+/-- supla_esp_devconn_recv_cb -/
+def recvCb (P : ProtoParams) (scratch : Bytes) (s : Io) (d : Bytes) : Io × List Obs :=
+  if d.length = 0 then (s, [])
+  else if d.length ≤ P.stage - s.i.staging.length then
+    devIterate P scratch { s with i := { s.i with staging := s.i.staging ++ d } }
+  else (s, [.log "RECVOVF"])
+
 /-- one event; `scratch` is the content of `srpc->sdp` before the event (arbitrary: the
     OUT path and `srpc_async__call` share it) -/
 def step (P : ProtoParams) (allowed : Nat → Bool) (scratch : Bytes) (s : Io) (e : Ev) :
@@ -162,16 +200,19 @@ def step (P : ProtoParams) (allowed : Nat → Bool) (scratch : Bytes) (s : Io) (
   else match e with
     | .recv d => recvCb P scratch s d
     | .tick => devIterate P scratch s
-    | .call c p => asyncCall P allowed s c p
-    | .esp cs => ({ s with esp := s.esp ++ cs }, [])
+    | .call c p =>
+      match s.o.asyncCall P allowed c p with
+      | (o, obs) => ({ s with o := o }, obs.map Obs.out)
+    | .esp cs => ({ s with o := { s.o with esp := s.o.esp ++ cs } }, [])
 
 /-- run a history; each event carries the scratch content that was current for it -/
 def run (P : ProtoParams) (allowed : Nat → Bool) (s : Io) : List (Bytes × Ev) → Io × List Obs
   | [] => (s, [])
   | (sc, e) :: es =>
-    let (s1, o1) := step P allowed sc s e
-    let (s2, o2) := run P allowed s1 es
-    (s2, o1 ++ o2)
+    match step P allowed sc s e with
+    | (s1, o1) =>
+      match run P allowed s1 es with
+      | (s2, o2) => (s2, o1 ++ o2)
 
 end Io
 end SuplaVerif
